@@ -103,6 +103,7 @@ int lha_arch_chmod(char *f, int p) { (void) f; (void) p; return 1; }
 int lha_arch_utime(char *f, unsigned int t) { (void) f; (void) t; return 1; }
 LHAFileType lha_arch_exists(char *f) { (void) f; return LHA_FILE_NONE; }
 int lha_arch_symlink(char *p, char *t) { (void) p; (void) t; return fs_next_ok; }
+int lha_arch_is_symlink(char *p) { (void) p; return 0; }   // the stub file system has no links in directory positions
 FILE *lha_arch_fopen(char *filename, int uid, int gid, int perms)
 {
 	int was = trk_on;
